@@ -203,6 +203,11 @@ func filterRecordsFromSearchQuery(query *structs.SearchQuery, segmentSearch *Seg
 		// We need to check if each record is in the query time range.
 		doRecLevelSearch = true
 	}
+	if query.MatchFilter != nil && query.MatchFilter.NegateMatch {
+		// The dictionary search above only marks the records that have the words, the
+		// negation is applied record by record below.
+		doRecLevelSearch = true
+	}
 
 	// we skip rawsearching for columns that are dict encoded,
 	// since we already search for them in the above call to applyColumnarSearchUsingDictEnc
